@@ -768,7 +768,7 @@ pub fn run(prop: &str, thorough: bool, seed: u64, driver: &str, rep: &mut Report
                     // every shape with two length masks
                     for mode in [LenMode::Mixed, LenMode::All, LenMode::None] {
                         let mut t = s.clone();
-                        { let rl = rng.chance(1, 3); label(&mut rng, &mut t, &LabelOpts { len_mode: mode, root_len: rl, ..Default::default() }); }
+                        { let rl = rng.chance(1, 3); label(&mut rng, &mut t, &LabelOpts { len_mode: mode, root_len: rl, ..Default::default() }); } if odd_labels(&mut rng, &mut t) { rep.count("trees_with_odd_labels"); }
                         trees.push(t);
                         if prop == "C10" {
                             break;
@@ -781,7 +781,7 @@ pub fn run(prop: &str, thorough: bool, seed: u64, driver: &str, rep: &mut Report
                 for s in binary_shapes(n) {
                     let mut t = s.clone();
                     let mode = *rng.pick(&[LenMode::All, LenMode::None, LenMode::Mixed]);
-                    { let rl = rng.chance(1, 3); label(&mut rng, &mut t, &LabelOpts { len_mode: mode, root_len: rl, ..Default::default() }); }
+                    { let rl = rng.chance(1, 3); label(&mut rng, &mut t, &LabelOpts { len_mode: mode, root_len: rl, ..Default::default() }); } if odd_labels(&mut rng, &mut t) { rep.count("trees_with_odd_labels"); }
                     trees.push(t);
                     rep.count("exhaustive_rooted_binary_shapes");
                 }
